@@ -22,7 +22,7 @@ def simpson_nodes(n=40001):
 FAMILIES = ["gauss", "wall", "bimodal", "periodic", "reflective", "exp-prior", "zero-region", "narrow"]
 
 
-def make_cell(seed, family=None, kernel=None, clustering=None, resample=None, d=None, N=64):
+def make_cell(seed, family=None, kernel=None, clustering=None, resample=None, d=None, N=64, vv=None):
     rng = np.random.default_rng(seed)
     fam = family or FAMILIES[int(rng.integers(0, len(FAMILIES)))]
     d = d or int(rng.integers(1, 3))
@@ -83,7 +83,7 @@ def make_cell(seed, family=None, kernel=None, clustering=None, resample=None, d=
     spec = {"d": d, "kinds": kinds, "a": a, "b": b, "centre": centre, "width": width, "mode": "vector", "zero_below": zero_below,
             "zero_coord": 0, "shift": 0.0, "mix": mix, "lkind": lkind}
     return {"family": fam, "target": spec, "kernel": kernel, "clustering": clustering, "resample": resample, "N": int(N),
-            "periodic": periodic, "reflective": reflective, "seed": int(seed)}
+            "periodic": periodic, "reflective": reflective, "seed": int(seed), "vv": vv}
 
 
 def truth(cell):
@@ -155,7 +155,7 @@ def run_replica(cell, seed, N=None, n_total_mult=6, measure_crossing=True):
     N = N or cell["N"]
     t = Target.from_spec(cell["target"])
     cfg = dict(sample=cell["kernel"], resample=cell["resample"], clustering=cell["clustering"], n_particles=N,
-               periodic=cell["periodic"], reflective=cell["reflective"])
+               periodic=cell["periodic"], reflective=cell["reflective"], volume_variation=cell.get("vv"))
     np.random.seed(seed % (2**31 - 1))
     s = runs.make_sampler(t, cfg)
     core = runs.core_of(s)
